@@ -27,7 +27,7 @@ PACKET_TYPE_MAP = {
 
 
 class QuicSession:
-    def __init__(self, packet: Packet, server_ports, keylog: list[Key], portmap):
+    def __init__(self, packet: Packet, server_ports, keylog: list[Key], portmap, keep_original_ports: bool):
         self.output_buffer = []
         self.greasy_bit = False
         self.keylog = keylog
@@ -76,6 +76,7 @@ class QuicSession:
 
         self.set_packet_number_spaces()
         self.portmap = portmap
+        self.keep_original_ports = keep_original_ports
 
     # reset Quic Session Parameters, except output buffer and Socket Addresses
     def reset(self):
@@ -123,7 +124,7 @@ class QuicSession:
 
     def build_output(self, metadata: bool):
         if len(self.output_buffer) > 0:
-            output_builder = QUICOutputbuilder(self.output_buffer, self.binary_to_ip(self.server_ip).__str__(), self.binary_to_ip(self.client_ip).__str__(), self.server_port, self.client_port, self.server_mac_addr, self.client_mac_addr, self.portmap, self.ipv6)
+            output_builder = QUICOutputbuilder(self.output_buffer, self.binary_to_ip(self.server_ip).__str__(), self.binary_to_ip(self.client_ip).__str__(), self.server_port, self.client_port, self.server_mac_addr, self.client_mac_addr, self.portmap, self.ipv6, self.keep_original_ports)
             return output_builder.build(metadata)
         else:
             return []
